@@ -4,6 +4,7 @@ import io
 from hypothesis import strategies as st
 
 import construct as C
+from construct import this
 
 from pbt import grammar as G
 from pbt import refmodel as R
@@ -220,7 +221,11 @@ def oracle_factory(ctx):
                     return Failure("C09/pointer-region/position", "fields around a Pointer inside a delimited body parsed as %r, without the Pointer %r | %s" % (got, want, where))
             return None
         if kind in ("select", "optional"):
-            con = C.Select(*subs) if kind == "select" else C.Optional(subs[0])
+            if kind == "select" and extra == "kw":
+                # keyword spelling: the alternatives are tried in the order written, whatever their names
+                con = C.Select(**{"alt%d" % (9 - i): c for i, c in enumerate(subs)})
+            else:
+                con = C.Select(*subs) if kind == "select" else C.Optional(subs[0])
             o = call(con.parse_stream, s)
             want = None
             for sp in specs:
@@ -280,12 +285,37 @@ def oracle_factory(ctx):
             if o.value.pos != pos or s.tell() != pos:
                 return Failure("C09/greedyrange/position", "GreedyRange left the stream at %d, the last successful element ends at %d | %s" % (s.tell(), pos, where))
             return None
+        if kind == "grange-zerowidth":
+            # elements that take no bytes, succeed a number of times and then fail (a table read through Pointer by _index, a
+            # look-ahead guarded by a Check on the running index): the result is every element up to the first failure
+            form, k = extra
+            if form == "pointer":
+                el = C.Pointer(this._index * k, C.BytesInteger(k))
+                vals = [int.from_bytes(data[i * k:(i + 1) * k], "big") for i in range(len(data) // k)]
+            else:
+                el = C.Struct("i" / C.Index, "p" / C.Peek(C.Byte), C.Check(this.i < k))
+                vals = [dict(i=i, p=(data[start] if start < len(data) else None)) for i in range(k)]
+            con = C.Struct("items" / C.GreedyRange(el), "pos" / C.Tell)
+            o = call(con.parse_stream, s)
+            if not (o.ok and lib_eq(list(o.value["items"]), vals)):
+                return Failure("C09/greedyrange/zero-width-elements", "GreedyRange -> %r, the successive elements alone give %s | %s" % (o, short(vals), where))
+            if o.value.pos != start or s.tell() != start:
+                return Failure("C09/greedyrange/position", "GreedyRange over elements that take no bytes left the stream at %d, started at %d | %s" % (s.tell(), start, where))
+            return None
         if kind == "union":
             names = ["u%d" % i for i in range(len(subs))]
             pf, anon = (extra if isinstance(extra, list) else (extra, []))
-            # anonymous members are parsed from the same start as everybody else; they just leave no entry behind
-            names = [None if i in anon else n for i, n in enumerate(names)]
-            con = C.Union(pf, *[(n / c) if n else c for n, c in zip(names, subs)])
+            if anon == "kw":
+                # keyword spelling Union(pf, u9=..., u8=...): members keep the order written (names chosen so that sorting would change it)
+                anon = []
+                names = ["u%d" % (9 - i) for i in range(len(subs))]
+                if isinstance(pf, str):
+                    pf = names[int(pf[1:])]
+                con = C.Union(pf, **{n: c for n, c in zip(names, subs)})
+            else:
+                # anonymous members are parsed from the same start as everybody else; they just leave no entry behind
+                names = [None if i in anon else n for i, n in enumerate(names)]
+                con = C.Union(pf, *[(n / c) if n else c for n, c in zip(names, subs)])
             o = call(con.parse_stream, s)
             refs = [iso(sp, data, start) for sp in specs]
             if all(r.ok for r, _ in refs):
@@ -333,6 +363,9 @@ def cases(draw):
                          foreign=kind in ("select", "optional", "grange", "grange-discard")))
     data, start = draw(inputs(specs))
     extra = None
+    if draw(st.integers(0, 19)) == 0:
+        kind = "grange-zerowidth"
+        extra = [draw(st.sampled_from(["pointer", "check"])), draw(st.integers(1, 4))]
     if kind == "pointer-stream":
         data = data[:start] + bytes([draw(st.integers(0, 9)), draw(st.integers(2, 6))]) + data[start:] + b"\x01\x02\x03\x04\x05\x06\x07"
         extra = draw(st.one_of(st.integers(0, len(data)), st.integers(-len(data), -1)))
@@ -349,6 +382,10 @@ def cases(draw):
             if isinstance(extra, str) and int(extra[1:]) in anon:
                 extra = int(extra[1:])      # (an anonymous member can only be selected by position)
             extra = [extra, sorted(anon)]
+        elif draw(st.integers(0, 2)) == 0:
+            extra = [extra, "kw"]
+    if kind == "select" and draw(st.integers(0, 3)) == 0:
+        extra = "kw"
     return [kind, specs, extra, data, start]
 
 
